@@ -9,22 +9,22 @@ CLAIMED = {
     # id: (level, technique, text, note, design_ref)
     "C03": ("exploration",
             "deterministic simulation: seam-level interval invariant on every ode/jac/events crossing + status honesty judged from observables (dense-span twin, non-terminal twin) on fault-free, cancelled and budget/fault-stopped runs",
-            "A deterministic sweep (6 methods x 2 directions x x0 in {0,3} x 7 span lengths 1e-12..7 x 9 option classes) plus a seeded swarm over spans (tiny, huge, infinite with terminal event), first_step (incl. > span, either sign), max_step (inf, > span, divisors), t_eval, dense_output, events, in three sub-populations (fault-free / terminal event / budget or non-finite RHS fault). Oracles: no callback evaluated outside [x0,xend]; t starts at x0, strictly monotone, inside the interval; shapes; Success => covered to rounding and last sample == xend; last accepted abscissa == xend bitwise => Success; UserInterrupt <=> a terminal function reaches its count in the twin; Success => finite values.",
+            "A deterministic sweep (6 methods x 2 directions x x0 in {0,3} x 7 span lengths 1e-12..7 x 9 option classes) plus a seeded swarm over spans (tiny, huge, infinite with terminal event), first_step (incl. > span, either sign), max_step (inf, > span, divisors), t_eval, dense_output, events, in three sub-populations (fault-free / terminal event / budget, persistent non-finite RHS fault, or a transient non-finite fault biased to the last step's crossings). Oracles: no callback evaluated outside [x0,xend]; t starts at x0, strictly monotone, inside the interval; shapes; Success => covered to rounding and last sample == xend; last accepted abscissa == xend bitwise => Success; UserInterrupt <=> a terminal function reaches its count in the twin; Success => finite values.",
             "Trusted: coverage read from the dense span (dense twin), terminal stop read from the twin with flags cleared; delta_t slack (x step count for RK4).",
             "DESIGN.md §5 C03"),
     "C04": ("fault_enumeration",
             "deterministic simulation: fault injection at the RHS seam at every crossing index + seeded swarm, tick-watchdog bounded liveness",
-            "Every S1 crossing index of every catalogue base gets a fault of every kind/duration (exhaustive over that finite space), plus a seeded swarm of random problems/options/knobs with phase-biased fault placement and the intrinsic blow-up/discontinuity/stiff cases; oracles: no panic, no hang within 5e6 ticks, no Success with non-finite values from an error-controlled method, every accepted step seen on the events seam is among the returned samples.",
+            "Every S1 crossing index of every catalogue base gets a fault of every kind/duration (exhaustive over that finite space), plus a seeded swarm of random problems/options/knobs with phase-biased fault placement, real (also terminal) event functions next to the faults, a quarter of the swarm borrowed from the other ten campaigns' placement-aware generators, and the intrinsic blow-up/discontinuity/stiff cases; oracles: no panic, no hang within 5e6 ticks, no Success with non-finite values from an error-controlled method, every accepted step seen on the events seam is among the returned samples.",
             "Trusted: the simulator (SimIVP fault plan, tick watchdog); faults only at the RHS; a sampled search, not a proof.",
             "DESIGN.md §5 C04"),
     "C05": ("exploration",
             "deterministic simulation: requested times placed against the pilot step grid, early stops injected (budget / terminal event / persistent RHS fault); executable t_eval reference model + dense on/off twin",
-            "Seeded swarm over placements of requested times relative to the accepted-step grid (inside, on a boundary, boundary +-1e-13..1e-11, x0, xend, many/none per step, duplicates), all methods, both directions, tiny spans, each run complete or stopped early by exactly one injected cause (step budget, terminal event inside a step holding requested times, persistent non-finite RHS from a chosen crossing); plus fixed boundary sweeps with budgets 1..9. Oracles: reported times == reference model bitwise; each value == the dense interpolant of the same run within tau_I+4e-12*F; t/y bitwise independent of dense_output.",
+            "Seeded swarm over placements of requested times relative to the accepted-step grid (inside, on a boundary, boundary +-1e-13..1e-11, x0, xend, many/none per step, duplicates), all methods, both directions, tiny spans, the zero-length run with t_eval at x0 (x0 anywhere), each run complete or stopped early by exactly one injected cause (step budget, terminal event inside a step holding requested times, persistent non-finite RHS from a chosen crossing); plus fixed boundary sweeps with budgets 1..9. Oracles: reported times == reference model bitwise; each value == the dense interpolant of the same run within tau_I+4e-12*F; t/y bitwise independent of dense_output.",
             "Accuracy against the exact solution is NOT decided (pure numerics). Stopping point read from observables (xend / terminal event time / dense span end); 1e-12 window at the stopping point as documented by the handler.",
             "DESIGN.md §5 C05"),
     "C06": ("exploration",
             "deterministic simulation: per-callback interpolant invariants over fault/modify/clamp-widened histories + dense-solution checks on runs stopped early by budget, terminal event or RHS fault",
-            "Seeded swarm over histories: transient finite RHS glitches force rejections and post-rejection steps, ModifiedSolution at chosen callbacks (BDF restart, FSAL refresh), max_step/min_step clamps, knobs, budget stops, terminal events, persistent NaN faults, both directions, the zero-length run. Low-level: the interpolant handed to every callback equals the state left behind by the previous callback at xold and y at x (tau_I), with matching bounds. High-level: span starts at x0, every reported time is answerable by sol and reproduces the stored sample, left/right limits agree at every interior step boundary, sol/sol_many agree and succeed on points of the span incl. both ends, OutOfRange clearly outside, NotEnabled without dense_output.",
+            "Seeded swarm over histories: transient finite RHS glitches force rejections and post-rejection steps, transient non-finite values take the retry paths (error-controlled methods), ModifiedSolution at chosen callbacks (BDF restart, FSAL refresh), max_step/min_step clamps, knobs, budget stops, terminal events, persistent NaN faults, both directions, the zero-length run. Low-level: the interpolant handed to every callback equals the state left behind by the previous callback at xold and y at x (tau_I), with matching bounds. High-level: span starts at x0, every reported time is answerable by sol and reproduces the stored sample, left/right limits agree at every interior step boundary, sol/sol_many agree and succeed on points of the span incl. both ends, OutOfRange clearly outside, NotEnabled without dense_output.",
             "Trusted: tau_I tolerance (DESIGN §5); samples emitted through the handler's 1e-12 slack by extrapolating a step over a non-negligible fraction of its length are excluded (counted).",
             "DESIGN.md §5 C06"),
     "C08": ("exploration",
@@ -54,13 +54,13 @@ CLAIMED = {
             "DESIGN.md §5 C12"),
     "C18": ("exploration",
             "deterministic simulation: conservation between reported counters and seam crossings recorded by the simulator, under interrupt/modify/fault/budget histories",
-            "Seeded swarm over problems (incl. hostile), methods, directions, analytic vs the crate's own finite-difference Jacobian (run for real through an adapter so its RHS calls are tagged), high- and low-level entry, and abnormal exits (Interrupt/ModifiedSolution at chosen callbacks, budget, persistent non-finite RHS fault, glitch-forced rejections, terminal events, zero-length/tiny intervals). Oracles: nfev == RHS crossings outside Jacobian differencing; njev == Jacobian crossings; naccpt == callbacks-1 (low) == len(t)-1 (high, no t_eval/first_step; a terminal event may truncate the last interval to nothing); nstep >= naccpt; all zero for the zero-length run.",
+            "Seeded swarm over problems (incl. hostile), methods, directions, analytic vs the crate's own finite-difference Jacobian (run for real through an adapter so its RHS calls are tagged), high- and low-level entry, and abnormal exits (Interrupt/ModifiedSolution at chosen callbacks, budget, persistent non-finite RHS fault, glitch-forced rejections, transient non-finite values (retry paths), terminal events, zero-length/tiny intervals). Oracles: nfev == RHS crossings outside Jacobian differencing; njev == Jacobian crossings; naccpt == callbacks-1 (low) == len(t)-1 (high, no t_eval/first_step; a terminal event may truncate the last interval to nothing); nstep >= naccpt; all zero for the zero-length run.",
             "Trusted: SimIVP crossing counters and the in_jac tag of the FD adapter.",
             "DESIGN.md §5 C18"),
     "C19": ("fault_enumeration",
             "deterministic simulation: simulator-owned SolOut returns Interrupt/ModifiedSolution at every callback index (and all ordered pairs) + seeded swarm; protocol reference model + bitwise twin runs",
             "For every catalogue base the cancellation (Interrupt) and the in-flight mutation (ModifiedSolution: identity, x2, perturbed) are delivered at EVERY callback index, plus all ordered pairs on short runs, plus a seeded swarm of 0-4-action plans over random problems/knobs/options. Oracles: an executable protocol model (first call, contiguity, direction, interpolant bounds and end-point values, ending at xend), no seam crossing after Interrupt, next crossing after ModifiedSolution is ode(x, written state) (BDF: then jac), identity plan bitwise equals the unmodified twin, power-of-two scaling on linear homogeneous problems scales everything that follows bitwise (Radau: within tolerance).",
-            "Trusted: SimSolOut/SimIVP logs; tau_I for interpolant end points; ControlFlag::XOut not exercised; BDF identity judged by protocol clauses only.",
+            "Trusted: SimSolOut/SimIVP logs; tau_I for interpolant end points; ControlFlag::XOut (undocumented) is scheduled and must not alter the integration (bitwise twin against Continue), but when an on-demand interpolant is due is not asserted; a valid configuration refused with Err before the first callback is a violation; BDF identity judged by protocol clauses only.",
             "DESIGN.md §5 C19"),
 }
 
